@@ -23,6 +23,7 @@ def errName : Err → String
   | .invalidRecoveryClient => "invalid-recovery-client"
   | .routeNotFound => "route-not-found"
   | .clientNotActive => "client-not-active"
+  | .invalidHeight => "invalid-height"
   | .storePanic => "panic"
 
 /-- client ops report `"changed"`: did the IBC store change (never, in the model) -/
@@ -48,12 +49,16 @@ def pathOf (j : Json) : Except String Path := do
     | none => throw "bad hex in path"
   pure (some bs)
 
+def htOf (j : Json) (kr kh : String) : Except String Ht := do pure ((← nat j kr), (← nat j kh))
+
 def parseOp (f : String) (j : Json) : Except String Op := do
   match f with
-  | "vm" => pure (.verifyMembership (← proofOf j) (← pathOf j) (← bytes j "value"))
-  | "vnm" => pure (.verifyNonMembership (← proofOf j) (← pathOf j))
-  | "kvm" => pure (.kVerifyMembership (← proofOf j) (← pathOf j) (← bytes j "value"))
-  | "kvnm" => pure (.kVerifyNonMembership (← proofOf j) (← pathOf j))
+  | "vm" => pure (.verifyMembership (← htOf j "hr" "hh") (← htOf j "sr" "sh") (← proofOf j) (← pathOf j)
+      (← bytes j "value"))
+  | "vnm" => pure (.verifyNonMembership (← htOf j "hr" "hh") (← htOf j "sr" "sh") (← proofOf j) (← pathOf j))
+  | "kvm" => pure (.kVerifyMembership (← htOf j "hr" "hh") (← htOf j "sr" "sh") (← proofOf j) (← pathOf j)
+      (← bytes j "value"))
+  | "kvnm" => pure (.kVerifyNonMembership (← htOf j "hr" "hh") (← htOf j "sr" "sh") (← proofOf j) (← pathOf j))
   | "init" => pure .initClient
   | "vcm" => pure .verifyClientMessage
   | "cfm" => pure .checkForMisbehaviour
